@@ -8,7 +8,7 @@ open DS
 theorem serde_formula (T : Tunables) (sk : Sk Rat) (ins L : List E) (hinv : Inv sk ins L) (hgad : sk.gadget = false)
     (hk : sk.k ≤ T.maxK) (hne : sk.isEmpty = false) :
     ∃ a, serdeRoundTrip T sk = some { sk with M := [], totalWtR := if sk.R.length > 0 then sk.totalWtR else 0,
-                                              numMarksInH := 0, mStale := decide (sk.R.length > 0), alloc := a } := by
+                                              numMarksInH := 0, mStale := decide (sk.R.length > 0) && !T.deserializeM0, alloc := a } := by
   have hmarks : ∀ e ∈ sk.H, e.mark = false := hinv.marks.2 hgad
   have hHmap : sk.H.map (fun e => ({ e with mark := sk.gadget && e.mark } : E)) = sk.H := by
     conv_rhs => rw [← List.map_id sk.H]
@@ -57,5 +57,35 @@ theorem serde_formula (T : Tunables) (sk : Sk Rat) (ins L : List E) (hinv : Inv 
       leaveGap sk.k (getAdjustedSize sk.k (2 ^ startingSubMultiple (Nat.log2 (ceilPow2 sk.k)) sk.rf (Nat.log2 (ceilPow2 sk.H.length))))
     else sk.k + 1, ?_⟩
   simp [hgad]
+
+/-- the deserialized copy satisfies the invariant (so it keeps accepting the stream) when the sketch is in warm-up,
+    or — in any mode — when the reader is the repaired one (`T.deserializeM0`) -/
+theorem serde_inv (T : Tunables) (sk : Sk Rat) (ins L : List E) (hinv : Inv sk ins L) (hgad : sk.gadget = false)
+    (hk : sk.k ≤ T.maxK) (hne : sk.isEmpty = false) (hok : sk.R = [] ∨ T.deserializeM0 = true) :
+    ∃ sk2, serdeRoundTrip T sk = some sk2 ∧ Inv sk2 ins L ∧ sk2.gadget = false := by
+  obtain ⟨a, hform⟩ := serde_formula T sk ins L hinv hgad hk hne
+  refine ⟨_, hform, ?_, hgad⟩
+  have hfresh : (decide (sk.R.length > 0) && !T.deserializeM0) = false := by
+    rcases hok with h | h
+    · simp [h]
+    · simp [h]
+  have hmk : (0 : Nat) = countMarks sk.H := by
+    unfold countMarks
+    rw [List.filter_eq_nil_iff.mpr (fun e he => by simp [hinv.marks.2 hgad e he])]; rfl
+  refine { kpos := hinv.kpos, mnil := rfl, fresh := hfresh, n_eq := hinv.n_eq, perm := hinv.perm, pos := hinv.pos,
+           marks := ⟨hmk, hinv.marks.2⟩, warm := ?_, est := ?_ }
+  · intro hR
+    obtain ⟨hL, hhk, _⟩ := hinv.warm hR
+    have hR' : sk.R = [] := hR
+    exact ⟨hL, hhk, by simp [hR']⟩
+  · intro hR
+    have hR' : sk.R ≠ [] := hR
+    have he := hinv.est hR'
+    have hrpos : sk.R.length > 0 := length_pos_of_ne_nil hR'
+    have hW : (if sk.R.length > 0 then sk.totalWtR else 0) = sk.totalWtR := by rw [if_pos hrpos]
+    exact { cnt := he.cnt, heap := he.heap, wtR := by show (if sk.R.length > 0 then sk.totalWtR else 0) = sumW L; rw [hW]; exact he.wtR,
+            rItems := he.rItems, rLen := he.rLen,
+            lLight := fun e h => by show e.wt * (sk.R.length : Rat) ≤ (if sk.R.length > 0 then sk.totalWtR else 0); rw [hW]; exact he.lLight e h,
+            hHeavy := fun e h => by show (if sk.R.length > 0 then sk.totalWtR else 0) ≤ e.wt * (sk.R.length : Rat); rw [hW]; exact he.hHeavy e h }
 
 end DS.VarOpt
